@@ -27,6 +27,8 @@ func SendServiceUsageRequest(
 	if err != nil {
 		return nil, err
 	}
+	// one connection per request: release it (and its serve / watchdog tasks) when the request is over
+	defer conn.Close()
 
 	meta, ok := smpeer.FromContext(conn.Context())
 	if !ok {
